@@ -216,24 +216,65 @@ func c03Factory(c *Ctx, w *prove.World) {
 				}
 			}
 		}
+		// the reply test may be handed on as a bool argument (CreateCommand(code, h.IsResponse())):
+		// the callee's parameter then stands for it (negation tracked), in any package of the module
+		isRespCall := func(v ssa.Value) bool {
+			call, isCall := v.(*ssa.Call)
+			return isCall && call.Common().StaticCallee() != nil && call.Common().StaticCallee().Name() == "IsResponse"
+		}
+		stripNot := func(v ssa.Value) (ssa.Value, bool) {
+			neg := false
+			for {
+				if u, isNot := v.(*ssa.UnOp); isNot && u.Op == token.NOT {
+					neg = !neg
+					v = u.X
+					continue
+				}
+				return v, neg
+			}
+		}
+		alias := map[ssa.Value]bool{} // parameter → negated?
+		sawIsResponse := false
+		for d := 0; d < 3; d++ {
+			for _, f := range append([]*ssa.Function{}, scope...) {
+				for _, b := range f.Blocks {
+					for _, in := range b.Instrs {
+						if isRespCall(valueOf(in)) {
+							sawIsResponse = true
+						}
+						ci, isCall := in.(ssa.CallInstruction)
+						if !isCall {
+							continue
+						}
+						g := ci.Common().StaticCallee()
+						if g == nil || g.Blocks == nil || !p.InModule(g) || len(ci.Common().Args) != len(g.Params) {
+							continue
+						}
+						for i, a := range ci.Common().Args {
+							v, neg := stripNot(a)
+							nv, isAlias := alias[v]
+							if isRespCall(v) || isAlias {
+								alias[g.Params[i]] = neg != nv
+								if !seenF[g] {
+									seenF[g] = true
+									scope = append(scope, g)
+								}
+							}
+						}
+					}
+				}
+			}
+		}
 		for _, f := range scope {
 			for _, b := range f.Blocks {
 				iff, isIf := b.Instrs[len(b.Instrs)-1].(*ssa.If)
 				if !isIf {
 					continue
 				}
-				cond := iff.Cond
-				neg := false
-				for {
-					if u, isNot := cond.(*ssa.UnOp); isNot && u.Op == token.NOT {
-						neg = !neg
-						cond = u.X
-						continue
-					}
-					break
-				}
-				call, isCall := cond.(*ssa.Call)
-				if !isCall || call.Common().StaticCallee() == nil || call.Common().StaticCallee().Name() != "IsResponse" {
+				cond, neg := stripNot(iff.Cond)
+				if nv, isAlias := alias[cond]; isAlias {
+					neg = neg != nv
+				} else if !isRespCall(cond) {
 					continue
 				}
 				t, fls := blockCalls(b.Succs[0]), blockCalls(b.Succs[1])
@@ -274,6 +315,9 @@ func c03Factory(c *Ctx, w *prove.World) {
 		}
 		if ok {
 			r.OK("dispatch", "Message.Unmarshal", p.Rel(un.Pos()), "IsResponse() → CreateResponseCommand, else CreateRequestCommand")
+		} else if sawIsResponse {
+			// the reply test is made, but what is done with its result is not a branch this rule reads
+			c.NotDecided("dispatch", "Message.Unmarshal", p.Rel(un.Pos()), "Header.IsResponse() is evaluated but no branch on it (directly, negated, or through a bool parameter) selects between the two factories in a form this rule reads")
 		} else {
 			r.Undecided("dispatch", "Message.Unmarshal", p.Rel(un.Pos()), "no branch on Header.IsResponse() found")
 		}
@@ -299,6 +343,68 @@ func c03Factory(c *Ctx, w *prove.World) {
 						e := codec.NewExt(w, fn)
 						if f, _, _ := e.ValueSrc(and.X); f == "Flags" {
 							ok = true
+						}
+					}
+				}
+			}
+		}
+		if !ok {
+			// return h.Flags.IsReply(): the test delegated to a method of the flags type
+			// whose receiver is the Flags field
+			for _, b := range fn.Blocks {
+				for _, in := range b.Instrs {
+					call, isCall := in.(*ssa.Call)
+					if !isCall || call.Common().StaticCallee() == nil || len(call.Common().Args) == 0 {
+						continue
+					}
+					g := call.Common().StaticCallee()
+					if g.Blocks == nil || !p.InModule(g) || len(g.Params) == 0 {
+						continue
+					}
+					e := codec.NewExt(w, fn)
+					if f, _, _ := e.ValueSrc(call.Common().Args[0]); f != "Flags" {
+						continue
+					}
+					// the call's result must be what IsResponse returns
+					returned := false
+					for _, rb := range fn.Blocks {
+						if ret, isRet := rb.Instrs[len(rb.Instrs)-1].(*ssa.Return); isRet && len(ret.Results) == 1 && ret.Results[0] == ssa.Value(call) {
+							returned = true
+						}
+					}
+					if !returned {
+						continue
+					}
+					for _, gb := range g.Blocks {
+						for _, gin := range gb.Instrs {
+							bo, isB := gin.(*ssa.BinOp)
+							if !isB || (bo.Op != token.EQL && bo.Op != token.NEQ) {
+								continue
+							}
+							and, isAnd := bo.X.(*ssa.BinOp)
+							if !isAnd || and.Op != token.AND {
+								continue
+							}
+							mk, _ := and.Y.(*ssa.Const)
+							ck, _ := bo.Y.(*ssa.Const)
+							if mk == nil || ck == nil || mk.Value == nil || ck.Value == nil || mk.Value.ExactString() != reply {
+								continue
+							}
+							subj := and.X
+							for {
+								if cv, isCv := subj.(*ssa.Convert); isCv {
+									subj = cv.X
+									continue
+								}
+								if ct, isCt := subj.(*ssa.ChangeType); isCt {
+									subj = ct.X
+									continue
+								}
+								break
+							}
+							if subj == ssa.Value(g.Params[0]) && ((bo.Op == token.EQL && ck.Value.ExactString() == reply) || (bo.Op == token.NEQ && ck.Value.ExactString() == "0")) {
+								ok = true
+							}
 						}
 					}
 				}
@@ -442,8 +548,22 @@ func c03Header(c *Ctx, w *prove.World) {
 	// encoder
 	enc := encStreams(w, m)["out"]
 	mpos := p.Rel(m.Pos())
+	opaque := ""
 	if bad := hasUnknown(enc); bad != "" {
-		r.Undecided("header", "Header.Marshal", mpos, "layout not recognised: "+bad)
+		opaque = "layout not read: " + bad
+	} else if why := codec.NewExt(w, m).Incomplete(); why != "" {
+		opaque = why
+	} else {
+		// bytes produced by something that is not a field of the receiver (a library
+		// encoder fed a local struct, a helper): the layout is not read off Marshal
+		for _, a := range enc {
+			if (a.Kind == "nested" || a.Kind == "bytes" || a.Kind == "fixed") && a.Field == "" {
+				opaque = "part of the header is produced by " + a.String() + ", which is not traced to a field of the receiver"
+			}
+		}
+	}
+	if opaque != "" {
+		c.NotDecided("header", "Header.Marshal", mpos, opaque)
 	} else {
 		off := 0
 		ok := len(enc) == len(c03HeaderSpec)
@@ -1201,4 +1321,11 @@ func c03HandsOn(fn *ssa.Function) bool {
 		}
 	}
 	return false
+}
+
+func valueOf(in ssa.Instruction) ssa.Value {
+	if v, ok := in.(ssa.Value); ok {
+		return v
+	}
+	return nil
 }
